@@ -20,7 +20,8 @@ if os.path.exists(mpath):
     matrix = "\n".join(m)
 else:
     matrix = "(matrix not generated yet: run tools/mutant_matrix.sh)"
-out = rd("tools/design_head.md") + rd("tools/design_mid.md").replace("@@STATUS_TABLE@@", "\n".join(rows)) + \
+head = rd("tools/design_head.md").replace("@@NFIX@@", str(len(kf["fixed"]))).replace("@@NFIND@@", str(len(kf["findings"])))
+out = head + rd("tools/design_mid.md").replace("@@STATUS_TABLE@@", "\n".join(rows)) + \
     rd("tools/design_tail.md").replace("@@FIXED_LIST@@", fixed).replace("@@FINDINGS_LIST@@", finds).replace("@@MUTANT_MATRIX@@", matrix) + rd("tools/design_appendix.md")
 open(os.path.join(V, "DESIGN.md"), "w").write(out)
 print("DESIGN.md", len(out.splitlines()), "lines")
